@@ -231,6 +231,14 @@ def run_job(job, keep_graph=False):
                         running = True
                     gs = g.run(gs)
                     cur["runs"] = cur.get("runs", 0) + 1
+                elif kind == "set_delay":
+                    # ["set_delay", "node", name, units] | ["set_delay", "edge", index, units]: change an *expected* delay
+                    # between episodes (public API); phases of the next episode must follow
+                    if op[1] == "node":
+                        nodes[op[2]].set_delay(delay=op[3] * U)
+                    else:
+                        e_ = spec["edges"][op[2]]
+                        nodes[e_["n"]].inputs[e_["o"]].set_delay(delay=op[3] * U)
                 elif kind == "stop":
                     g.stop()
                     if running and cur is not None:
